@@ -1410,8 +1410,15 @@ fn assignment_stmt_to_asg_stmt(
         // }
     }
     let expr = expr_to_asg_texpr(assignment_stmt.rhs(), context).unwrap(); // rhs of `=` operator
+    // As for a plain identifier above: an element of a `const` register cannot be assigned to.
+    let is_mutating_const =
+        indexed_identifier.identifier().is_ok() && matches!(typ, Type::BitArray(_, IsConst::True));
     let lvalue = asg::LValue::IndexedIdentifier(indexed_identifier);
-    Some(asg::Assignment::new(lvalue, expr).to_stmt())
+    let stmt_asg = Some(asg::Assignment::new(lvalue, expr).to_stmt());
+    if is_mutating_const {
+        context.insert_error(MutateConstError, assignment_stmt);
+    }
+    stmt_asg
 }
 
 //
